@@ -40,6 +40,13 @@ def models(tier):
     inv = ["Good", "TreeValid"]
     prop = ["RefinesSortedMap"]
     ms = []
+    if tier == "cross":
+        return [dict(tag="vals-K4", consts=dict(base, MaxKey=4, Vals={1, 2}, WithIter=False), invariants=inv, properties=prop,
+                     workers=2, trace_consts=TRACE_CONSTS, replays=_replays([1]), prelude=lambda segs: _remap_values(segs, 2)),
+                dict(tag="shape-K6", consts=dict(base, MaxKey=6, Vals={1}, WithIter=False), invariants=inv, properties=prop,
+                     workers=2, trace_consts=TRACE_CONSTS, replays=_replays([0])),
+                dict(tag="iter-K3", consts=dict(base, MaxKey=3, Vals={1}, WithIter=True), invariants=inv, properties=prop,
+                     workers=4, trace_consts=TRACE_CONSTS, replays=_replays([3]), prelude=_prelude)]
     k1 = 8 if tier == "quick" else 10
     ms.append(dict(tag="shape-K%d" % k1, consts=dict(base, MaxKey=k1, Vals={1}, WithIter=False), invariants=inv, properties=prop,
                    workers=4, trace_consts=TRACE_CONSTS, replays=_replays([0, 1, 2, 3]), heap="8g"))
@@ -124,16 +131,16 @@ def _rand(rng, steps, nkeys, walks=True):
 
 def randoms(tier, rng):
     out = []
-    plan = [(2, 6000, 40), (1, 8000, 2000)] if tier == "quick" else [(6, 8000, 40), (3, 20000, 2000), (2, 30000, 10000)]
+    plan = [(2, 6000, 40), (1, 8000, 2000)] if tier == "quick" else [(1, 1500, 30), (1, 2000, 500)] if tier == "cross" else [(6, 8000, 40), (3, 20000, 2000), (2, 30000, 10000)]
     for n, (nseg, steps, nkeys) in enumerate(plan):
         out.append(dict(tag="k%d" % nkeys, segs=[_rand(rng, steps, nkeys) for _ in range(nseg)], trace_consts=TRACE_CONSTS,
                         replays=_replays([rng.randint(0, 3), (n + 1) % 4] if tier == "thorough" else [(n * 2 + rng.randint(0, 1)) % 4])))
     # walk bursts: hundreds of traversal starts on small trees (epoch wrap-around, C03)
     burst = []
-    for _ in range(2 if tier == "quick" else 6):
+    for _ in range(2 if tier == "quick" else 1 if tier == "cross" else 6):
         seg = []
         keys = list(range(1, 8))
-        for rnd in range(80 if tier == "quick" else 200):
+        for rnd in range(80 if tier == "quick" else 30 if tier == "cross" else 200):
             seg.append(dict(op="put", a=rng.choice(keys), b=1))
             seg.append(dict(op="rm", a=rng.choice(keys), b=0))
             for _ in range(rng.randint(1, 6)):
@@ -146,12 +153,12 @@ def randoms(tier, rng):
     # epoch cycles: stamps written by one walk must not be mistaken for "visited" a whole counter period later.
     # spin(n) = n traversal starts abandoned after one element (each advances the epoch, stamps only the minimum)
     cyc = []
-    for c in range(4 if tier == "quick" else 12):
+    for c in range(4 if tier == "quick" else 1 if tier == "cross" else 12):
         seg = []
         nk = rng.randint(2, 7)
         for k in rng.sample(range(1, 9), nk):
             seg.append(dict(op="put", a=k, b=1))
-        for rnd in range(4 if tier == "quick" else 8):
+        for rnd in range(4 if tier == "quick" else 2 if tier == "cross" else 8):
             # a complete or partial walk leaves stamps behind
             if rng.random() < 0.6:
                 seg.append(dict(op="walk", a=0, b=0))
